@@ -72,6 +72,38 @@ void single_flavour(Life &L) {
   const Plan &p = *L.p;
   DbOptions &opt = *L.opt;
   int nbak = 0;
+  std::vector<string> targets; // directories created by earlier backups/copies
+  // backup or copy onto a directory that already exists (an earlier backup, or the source itself): whatever the call
+  // answers, what was there must not be destroyed - an error leaves the target exactly as it was
+  auto onto_existing = [&](const Op &o, bool backup) -> bool {
+    if (o.a < 0) return false;
+    size_t pick = (size_t)o.a % (targets.size() + 1);
+    bool self = pick == targets.size();
+    string tgt = self ? L.dir : targets[pick];
+    if (self && !backup) return false;
+    if (!backup && !L.created) return false;
+    Contents before;
+    if (!self && !read_all(tgt, p.cfg, &before, "existing target")) return true;
+    uint64_t h0 = self ? 0 : simfs::tree_hash(tgt, true);
+    int rc = backup ? ldb_backup(L.db, tgt.c_str()) : ldb_copy(L.dir.c_str(), tgt.c_str(), &opt.o);
+    probe(self ? "backup_onto_source" : backup ? "backup_onto_existing" : "copy_onto_existing");
+    if (self) {
+      if (rc == LDB_OK) violation("C20", "backup_onto_self", "ldb_backup onto the source's own directory reports success");
+      check_model(L, "after a refused backup onto the source's own directory");
+      lock_must_be(L, true, "after a refused backup onto the source's own directory");
+      return true;
+    }
+    if (rc != LDB_OK) {
+      if (simfs::tree_hash(tgt, true) != h0) { violation("C20", "target_destroyed", "%s onto the existing directory %s fails with %s and has changed that directory's files", backup ? "ldb_backup" : "ldb_copy", tgt.c_str(), rcname(rc)); return true; }
+      Contents after;
+      if (read_all(tgt, p.cfg, &after, "existing target after a refused backup/copy") && after != before) violation("C20", "target_destroyed", "existing directory %s holds %zu entries after a refused %s, %zu before", tgt.c_str(), after.size(), backup ? "backup" : "copy", before.size());
+    } else {
+      Contents after;
+      if (read_all(tgt, p.cfg, &after, "overwritten target") && after != L.model) violation("C20", "backup_contents", "%s onto an existing directory reports success but the target holds %zu entries, the source %zu", backup ? "ldb_backup" : "ldb_copy", after.size(), L.model.size());
+    }
+    if (L.db) check_model(L, "after backup/copy onto an existing directory");
+    return true;
+  };
   for (size_t i = 0; i < p.ops.size() && !failed(); i++) {
     const Op &o = p.ops[i];
     simfs::set_current_op((int)i);
@@ -133,7 +165,9 @@ void single_flavour(Life &L) {
       case O_LOCK_PROBE: if (L.created) lock_must_be(L, L.db != nullptr, "probe"); break;
       case O_BACKUP: {
         if (!L.db) break;
+        if (onto_existing(o, true)) break;
         string bd = "/sim/bak" + std::to_string(nbak++);
+        targets.push_back(bd);
         // quiescent point first: ldb_backup itself waits for a running compaction, which legitimately changes the layout
         sim::drain();
         string before = db_sstables(L.db);
@@ -161,6 +195,8 @@ void single_flavour(Life &L) {
           lock_must_be(L, true, "after ldb_copy on an open database");
           check_model(L, "after ldb_copy on an open database");
         } else if (L.created) {
+          if (onto_existing(o, false)) break;
+          targets.push_back(cd);
           uint64_t h0 = simfs::tree_hash(L.dir, true);
           int rc = ldb_copy(L.dir.c_str(), cd.c_str(), &opt.o);
           probe("copies");
@@ -316,8 +352,8 @@ Plan gen_life(uint64_t seed, const string &prop) {
     else if (c < 58) o.kind = O_CLOSE;
     else if (c < 70) { o.kind = O_OPEN2; o.b = (int)r.below(4); }
     else if (c < 78) o.kind = O_LOCK_PROBE;
-    else if (c < 86) o.kind = O_BACKUP;
-    else if (c < 93) o.kind = O_COPY;
+    else if (c < 86) { o.kind = O_BACKUP; if (r.chance(0.3)) o.a = (int)r.below(6); }
+    else if (c < 93) { o.kind = O_COPY; if (r.chance(0.3)) o.a = (int)r.below(6); }
     else { o.kind = O_DESTROY; o.b = (int)r.below(16); }
     p.ops.push_back(o);
   }
